@@ -74,6 +74,15 @@ CHECKS = {
              'valuations of the free symbols and all constants, the same width, and that all-constant inputs give an ExprInt. Exceptions other than the documented ValueError are violations keyed by operator.',
         note='Trusted: z3, SInt proxy, E1 incl. x86 helper operators, the 40-line reference substitution. Bounds: templates + depth-1 shapes + lifter operators; widths 32/8 (quick), 8..64 (thorough); overlap is C07.',
         design='5/C06', engine='E2+E1'),
+    'C07': dict(
+        level='translation_validation',
+        technique='symbolic execution of the real eval_instr/eval_expr memory model with symbolic store/load offsets (E2) + SMT equality with an array store chain (E1, z3)',
+        text='Memory histories: 1-2 stores (3 in thorough) through the real eval_instr at base+offset with SYMBOLIC offsets, then a load through the real eval_expr; on every path '
+             'the solver proves (a) the pool denotes the same byte array as the sequential store chain (for an arbitrary probe address, no two cells overlap) and (b) E1(load) equals the load '
+             'on the store chain - for all offsets of the path, all stored values, all initial memory, base constant or symbolic register.',
+        note='Trusted: z3 (arrays + bit-vectors), SInt proxy, E1. Bounds: widths 8/16/32, first store at base+8, other offsets in a window of 12-23 bytes; '
+             'programs and rep clauses: see DESIGN (part P).',
+        design='5/C07', engine='E2+E1'),
 }
 
 NOT_APPLICABLE = {
